@@ -316,8 +316,12 @@ Print Assumptions GenTie_div_nxm.
 Theorem GenTie_limbs_ret :
   (forall lhs a, Forall inW lhs -> inW a ->
      g_add_nx1 lhs a = Val (snd (add_nx1 lhs a), fst (add_nx1 lhs a))) /\
-  (forall left right, g_slice_cmp left right = Val (Add.limbs_cmp left right)).
-Proof. exact (conj g_add_nx1_eq g_slice_cmp_eq). Qed.
+  (forall left right, g_slice_cmp left right = Val (Add.limbs_cmp left right)) /\
+  (* addmul_n: assert_eq! on the lengths, then dispatch on the length to the unrolled kernels
+     (translated, above) or to the generic addmul (model function) *)
+  (forall lhs a b, Forall inW lhs -> Forall inW a -> Forall inW b ->
+     g_addmul_n lhs a b = Limbs.addmul_n lhs a b).
+Proof. exact (conj g_add_nx1_eq (conj g_slice_cmp_eq g_addmul_n_eq)). Qed.
 Print Assumptions GenTie_limbs_ret.
 
 (* the premises are satisfiable and the generated code computes: reciprocal(2^63) = 2^64 - 1 *)
